@@ -107,6 +107,35 @@ def pro_diagram(rng, depth):
     return ("mk", dom, [o] * n, boxes, offsets)
 
 
+def spiral_snake(rng, fam):
+    """Nested snakes: an inner cap between the legs of an outer cap; yanking the inner snake turns
+    the OUTER cap (several boxes higher in the list) into half of a new snake.  Right- and
+    left-handed, an extra box on the through wire / on a leg of the outer cap / nowhere, padded
+    with context wires on both sides."""
+    m = fam.m
+    n = m.Ty(m.Ob(rng.choice(["a", "b", "c"]), rng.choice([0, 0, 1, -1])))
+    pad_l = m.Ty(*[m.Ob(rng.choice(["c", "d"]), 0) for _ in range(rng.choice([0, 0, 1]))])
+    pad_r = m.Ty(*[m.Ob(rng.choice(["c", "d"]), 0) for _ in range(rng.choice([0, 0, 1]))])
+    Id, Cap, Cup, Box = m.Id, m.Cap, m.Cup, m.Box
+    where = rng.choice(["through", "outer", "none"])
+    if rng.random() < 0.5:      # right-handed: n.r -> n.r
+        f = Box("f%d" % rng.randint(0, 3), n.r, n.r)
+        top = Cap(n.r, n) @ Id(n.r)
+        mid = {"through": Id(n.r @ n) @ f, "outer": f @ Id(n @ n.r), "none": Id(n.r @ n @ n.r)}[where]
+        core = top >> mid >> Id(n.r) @ Cap(n, n.l) @ Id(n @ n.r) \
+            >> Id(n.r @ n) @ Cup(n.l, n) @ Id(n.r) >> Id(n.r) @ Cup(n, n.r)
+    else:                       # left-handed: n.l -> n.l
+        g = Box("f%d" % rng.randint(0, 3), n.l, n.l)
+        top = Id(n.l) @ Cap(n, n.l)
+        mid = {"through": g @ Id(n @ n.l), "outer": Id(n.l @ n) @ g, "none": Id(n.l @ n @ n.l)}[where]
+        core = top >> mid >> Id(n.l @ n) @ Cap(n.r, n) @ Id(n.l) \
+            >> Id(n.l) @ Cup(n, n.r) @ Id(n @ n.l) >> Cup(n.l, n) @ Id(n.l)
+    d = Id(pad_l) @ core @ Id(pad_r)
+    if pad_l and rng.random() < 0.5:
+        d = Box("p", pad_l, pad_l) @ Id(core.dom @ pad_r) >> d
+    return d
+
+
 def leftover_snake(d):
     """A cap whose leg runs straight into the opposite leg of a cup forming a snake equation."""
     from discopy.rigid import Cup, Cap
@@ -146,6 +175,11 @@ def run(tier, seed, replay=None):
             if k % 6 == 5:
                 e1, kinds = pro_diagram(random.Random(rng.getrandbits(64)), rng.randint(2, 6)), ["pro"]
                 d = shuffle_exchanges(rng, fam_pro.run(e1))
+            elif k % 6 == 4:
+                kinds = ["spiral"]
+                d = spiral_snake(random.Random(rng.getrandbits(64)), fam)
+                if rng.random() < 0.5:
+                    d = shuffle_exchanges(rng, d, tries=6)
             else:
                 g = Gen(random.Random(rng.getrandbits(64)), rigid=True, maxw=5)
                 e0, scans = g.diagram(depth=rng.choice([0, 1, 2, 2, 3, 3, 4, 5]))
